@@ -17,15 +17,19 @@ over the observed run, not a predictor of one run: where the statement is silent
 entry of a delivery is OPTIONAL (may or may not be invoked, at most once):
 
   * a handler subscribed to the same (source, type) while the delivery is in progress;
-  * a handler unsubscribed by somebody while the delivery is in progress
-    (it was subscribed "at that moment", and it has been told to go away);
-  * a one-shot handler that is itself executing when a nested raise begins;
+  * a one-shot handler that is itself executing when a nested raise begins, and a snapshot entry that
+    ended its own subscription (one-shot, remove return value) in a nested delivery of the same event
+    type before its turn came ("never invoked again" and "every handler subscribed at that moment"
+    pull in opposite directions there);
   * a handler that returned the bare value False earlier (undocumented: POX removes it);
   * everything after a handler ended with an exception, returned bare True
     (undocumented halt) or set event.halt without returning a halting value.
 
 Entries whose weakly-referenced owner has died are FORBIDDEN.  Everything else is
-REQUIRED, in (-priority, subscription sequence) order.
+REQUIRED, in (-priority, subscription sequence) order -- in particular a handler of the
+snapshot that somebody unsubscribes while the delivery is in progress: it was subscribed
+"at that moment", and "removals made by handlers during delivery never cause a handler to
+be skipped".  (It is forbidden in every later delivery.)
 
 Violations are collected as (clause, discriminators, message); the monitor then follows
 the implementation so that the run can continue behind an already known defect.
@@ -66,7 +70,7 @@ class Sub(object):
 
 class Delivery(object):
   __slots__ = ("id", "src", "etype", "entries", "consumed", "pos", "late", "late_consumed",
-               "optional", "halted", "loose", "aborted", "did_sub", "did_sorting_sub",
+               "optional", "removed", "halted", "loose", "aborted", "did_sub", "did_sorting_sub",
                "did_unsub", "invocations", "reentrant_ops", "depth")
 
   def __init__(self, id, src, etype, entries, depth):
@@ -75,7 +79,8 @@ class Delivery(object):
     self.pos = 0
     self.late = []
     self.late_consumed = set()
-    self.optional = set()         # sub ids unsubscribed while this delivery was active
+    self.optional = set()         # sub ids whose invocation in this delivery is not judged
+    self.removed = set()          # live sub ids unsubscribed while this delivery was active: still owed
     self.halted = False           # a handler returned a documented halting value
     self.loose = False            # rest of the delivery is not judged (see module doc)
     self.aborted = False          # a handler ended with an exception
@@ -144,10 +149,11 @@ class Monitor(object):
     for s in subs:
       if s.state == DEAD:
         continue
+      was_live = s.state == LIVE
       s.state, s.why = DEAD, why
       for d in self.stack:
         if d.src == s.src and d.etype == s.etype:
-          d.optional.add(s.id)
+          (d.removed if was_live else d.optional).add(s.id)
           d.did_unsub = True
 
   def owner_dead(self, owner):
@@ -182,7 +188,11 @@ class Monitor(object):
       return "forbidden"
     if d.loose or d.aborted:
       return "optional"
-    if s.id in d.optional or s.state != LIVE:
+    if s.id in d.optional:
+      return "optional"
+    if s.id in d.removed:
+      return "required"         # unsubscribed during this delivery: snapshot semantics
+    if s.state != LIVE:
       return "optional"
     if s.once and s.executing > 0:
       return "optional"
